@@ -141,6 +141,57 @@ def prior_date_search(r, quick):
     r.extra["prior_date_lookups_checked"] = n
 
 
+def date_presentation_search(r, rnd, quick):
+    """`set_up_policy_environment` documents three presentations of the day (datetime.date, ISO string, year as int):
+    all must select the environment of the same calendar day (compared through the `datum` stamps, a digest of the
+    parameters and the identity of every selected function)."""
+    import hashlib
+    import warnings
+
+    import pandas as pd
+    from gettsim import set_up_policy_environment
+
+    def digest(env):
+        params, functions = env
+        stamps = sorted({str(b.get("datum")) for b in params.values() if isinstance(b, dict) and "datum" in b})
+        body = hashlib.sha256(repr(sorted((g, repr(sorted((k, repr(v)) for k, v in strip_datum({g: b})[g].items())))
+                                          for g, b in params.items() if isinstance(b, dict))).encode()).hexdigest()[:16]
+        funs = hashlib.sha256(repr(sorted((k, f.__module__, f.__name__) for k, f in functions.items())).encode()).hexdigest()[:16]
+        return stamps, body, funs
+
+    years = rnd.sample(range(2005, 2025), 2 if quick else 8)
+    days = [D(y, m, dd) for y in years for (m, dd) in ((7, 1), (1, 7), (2, 28), (12, 31), (10, 1), (3, 5))]
+    if quick:
+        days = rnd.sample(days, 5)
+    days += [D(2020, 2, 29)]
+    for d in days:
+        forms = [("datetime.date", d), ("ISO string", d.isoformat()), ("pandas Timestamp string", str(pd.Timestamp(d)))]
+        if (d.month, d.day) == (1, 1):
+            forms.append(("year as int", d.year))
+        outs = []
+        with warnings.catch_warnings():
+            warnings.simplefilter("ignore")
+            for label, v in forms:
+                ok, env = r.attempt(f"set_up_policy_environment({v!r})", set_up_policy_environment, v)
+                if ok:
+                    outs.append((label, v, digest(env)))
+        r.case({"date-presentations": d.isoformat()})
+        for label, v, dg in outs[1:]:
+            if dg != outs[0][2]:
+                r.hit({"kind": "date-presentation-changes-environment", "form": label},
+                      f"set_up_policy_environment({v!r}) is not the environment of {d.isoformat()} given as datetime.date: "
+                      f"stamps {dg[0]} vs {outs[0][2][0]}", {"date": d.isoformat(), "form": label, "value": str(v)})
+    for y in rnd.sample(range(2005, 2025), 1 if quick else 5):
+        with warnings.catch_warnings():
+            warnings.simplefilter("ignore")
+            ok1, a = r.attempt(f"set_up_policy_environment({y})", set_up_policy_environment, y)
+            ok2, b = r.attempt(f"set_up_policy_environment(date({y},1,1))", set_up_policy_environment, D(y, 1, 1))
+        r.case({"date-presentations": y})
+        if ok1 and ok2 and digest(a) != digest(b):
+            r.hit({"kind": "date-presentation-changes-environment", "form": "year as int"},
+                  f"set_up_policy_environment({y}) is not the environment of 1 January {y}", {"year": y})
+
+
 def _same(a, b):
     if isinstance(a, dict) and isinstance(b, dict):
         return set(a) == set(b) and all(_same(a[k], b[k]) for k in a)
@@ -154,7 +205,8 @@ def run(tier: str) -> int:
               "env_cut / functionsFor_cut); per cell: first and last day (+ random interior days) — Lean loader model vs "
               "real set_up_policy_environment (raw scalars exactly, parsed schedules 2^-40), function tables as sets; "
               "search: real environments of two days of one cell must be equal up to datum; scalar parameters vs the "
-              "latest YAML entry read independently; calendar model vs datetime. distinct = distinct (cell, day).")
+              "latest YAML entry read independently; prior-date look-ups on the real loader; the documented presentations of a "
+              "day (date object, ISO string, timestamp string, year) select the same environment; calendar model vs datetime. distinct = distinct (cell, day).")
     emit_lean.regenerate()
     common.build_and_audit(r, ["C07", "C07Inst"], leanchecker=not quick)
     rnd = common.rng("C07")
@@ -255,6 +307,7 @@ def run(tier: str) -> int:
     r.extra.setdefault("correspondence", {})["environment + function table: model vs code"] = {
         "days": len(ords), "env_disagreements": bad_env, "function_table_disagreements": bad_fun}
     prior_date_search(r, quick)
+    date_presentation_search(r, rnd, quick)
     # boundary days of every implementation switch (inclusive bounds)
     from _gettsim.policy_environment import load_functions_for_date
     import warnings
